@@ -29,6 +29,11 @@ pub fn run(ctx: &Ctx) -> i32 {
             cases.push(Cli { name: format!("instr-{spelled}"), text: Some(text), image: None, uses_ext: "mnemonic" });
             cases.push(Cli { name: format!("label-{spelled}"), text: Some(format!("{spelled} add r0 r0 r0\nhalt\n")), image: None, uses_ext: "mnemonic-as-label" });
             cases.push(Cli { name: format!("operand-{spelled}"), text: Some(format!("br {spelled}\nhalt\n")), image: None, uses_ext: "mnemonic-as-label" });
+            // with the label colon attached, on the statement's line and on a line of its own
+            cases.push(Cli { name: format!("label-colon-{spelled}"), text: Some(format!("{spelled}: add r0 r0 r0\nhalt\n")), image: None, uses_ext: "mnemonic-as-label" });
+            cases.push(Cli { name: format!("label-colon-own-line-{spelled}"), text: Some(format!("{spelled}:\n    add r0 r0 r0\n    br {spelled}\nhalt\n")), image: None, uses_ext: "mnemonic-as-label" });
+            cases.push(Cli { name: format!("operand-colon-{spelled}"), text: Some(format!("brnzp {spelled}:\nhalt\n")), image: None, uses_ext: "mnemonic-as-label" });
+            cases.push(Cli { name: format!("label-comma-{spelled}"), text: Some(format!("{spelled}, add r0 r0 r0\nhalt\n")), image: None, uses_ext: "mnemonic-as-label" });
         }
     }
     // raw xD words of all four sub-kinds reached at run time: via .fill in a source and as .lc3 images
